@@ -260,7 +260,7 @@ def named_cells():
     out = []
     for kid, ktpl in NAMED_KINDS.items():
         for uid, use in NAMED_USES.items():
-            for eid, e, mut in NAMED_EXPRS:
+            for eid, e, mut in (EXPRS if engine.tier() == "thorough" else NAMED_EXPRS):
                 for names in ("same-name", "different-names"):
                     n2 = "N" if names == "same-name" else "M"
                     for order in ("ill-formed-second", "ill-formed-first"):
@@ -335,7 +335,7 @@ def main():
                         "sizes with bound twins, directly and through chains of 1-3 partial instantiations; plus %d function-local contexts x %d chains that stay inside one function body (parameters, local "
                         "variables, local constants initialised from run-time values, chains of those), in global and template-local "
                         "functions." % (len(CONTEXTS), len(EXPRS), len(LOCAL_CONTEXTS), len(LOCAL_CHAINS)))
-    for res in engine.pmap(run_shard, list(CONTEXTS) + ["free-params", "function-local-chains"] + ["named-twice/%d/8" % i for i in range(8)]):
+    for res in engine.pmap(run_shard, list(CONTEXTS) + ["free-params", "function-local-chains"] + ["named-twice/%d/32" % i for i in range(32)]):
         rep.merge(res)
     rep.assumptions = ["every declared type is used by a variable (the statement speaks of used types)",
                        "function-local initialisers are not compile-time contexts themselves; sizes and bounds of function-local declarations are"]
